@@ -34,6 +34,8 @@ class TernaryPass(AbstractPass):
         return m
 
     def new(self, test_case, _=None):
+        if self.arg not in ['b', 'c']:
+            raise UnknownArgumentError(self.__class__.__name__, self.arg)
         return self.__get_next_match(test_case, pos=0)
 
     def advance(self, test_case, state):
